@@ -127,36 +127,50 @@ def h_scratch(ctx, case):
 
 def h_stale_buffers(ctx, case):
     """the mapping dispatch with per-chunk result files: files left in
-    the result directory by other runs (under any buffer-like name) are
-    neither read nor removed"""
+    the result directory by other runs - directly in it or under any
+    buffer-like directory name, also planted at the moment the run
+    creates its own buffer directory - are neither read nor removed"""
     from harness import dispatch as DP
-    import cell_type_mapper.type_assignment.election as el
-    real_mkdtemp = el.tempfile.mkdtemp
-    planted = []
-
-    class _TF:
-        def __getattr__(self, n):
-            return getattr(__import__('tempfile'), n)
-
-        def mkdtemp(self, *a, **k):
-            # plant the stale files just before the run creates its own
-            # buffer directory
-            d = k.get('dir')
-            if d is not None and not planted:
-                for name in ('results_buffer', 'results_buffer_',
-                             'results_buffer_old', 'result_buffer'):
-                    sub = os.path.join(str(d), name)
-                    os.makedirs(sub, exist_ok=True)
-                    for fn in ('0_1_assignment.json', '0_2_assignment.json',
-                               '9_9_assignment.json'):
-                        p = os.path.join(sub, fn)
-                        with open(p, 'w') as f:
-                            f.write('[{"cell_id": "stale"}]')
-                        planted.append(p)
-            return real_mkdtemp(*a, **k)
     from harness.common import patch
-    patch(el, 'tempfile', _TF())
-    res = DP.run_dispatch(ctx, case, faults=False)
+    import cell_type_mapper.type_assignment.election as el
+    planted = []
+    FILES = ('0_1_assignment.json', '0_2_assignment.json',
+             '9_9_assignment.json')
+
+    def plant(d, names):
+        for name in names:
+            sub = os.path.join(str(d), name) if name else str(d)
+            os.makedirs(sub, exist_ok=True)
+            for fn in FILES:
+                p = os.path.join(sub, fn)
+                if not os.path.exists(p):
+                    with open(p, 'w') as f:
+                        f.write('[{"cell_id": "stale"}]')
+                    planted.append(p)
+
+    def before(env):
+        # left by an earlier run with other chunk bounds (or one that
+        # died): in the result directory itself and in buffer-like
+        # sub-directories
+        plant(env.dir, ['', 'results_buffer', 'results_buffer_',
+                        'results_buffer_old', 'result_buffer'])
+    tf = getattr(el, 'tempfile', None)
+    if tf is not None:
+        real_mkdtemp = tf.mkdtemp
+        done = []
+
+        class _TF:
+            def __getattr__(self, n):
+                return getattr(tf, n)
+
+            def mkdtemp(self, *a, **k):
+                d = k.get('dir')
+                if d is not None and not done:
+                    done.append(1)
+                    plant(d, ['results_buffer_new'])
+                return real_mkdtemp(*a, **k)
+        patch(el, 'tempfile', _TF())
+    res = DP.run_dispatch(ctx, case, faults=False, before=before)
     if res['raised'] is not None:
         ctx.exception(res['raised'], 'stale per-chunk files disturbed the '
                       'run: ' + str(res['raised'])[:80])
